@@ -1654,6 +1654,22 @@ fn lib_compile(lib: &MaslLibrary, stdlib: bool, execute: bool) -> String {
     }
 }
 
+/// The same source laid out so that tokens sit at lines / columns that do not fit 16 bits
+/// (machine-generated or minified MASM): every line indented by `COL_SHIFT` spaces, `LINE_SHIFT`
+/// blank lines in front, or both. The AST (and its MAST) is the same; only source locations differ.
+pub const COL_SHIFT: usize = 65_600;
+pub const LINE_SHIFT: usize = 70_000;
+pub fn relayout(src: &str, kind: &str) -> String {
+    let pad = " ".repeat(COL_SHIFT);
+    let cols = |s: &str| s.lines().map(|l| if l.trim().is_empty() { l.to_string() } else { format!("{pad}{l}") }).collect::<Vec<_>>().join("\n");
+    match kind {
+        "col-shift" => cols(src),
+        "line-shift" => format!("{}{src}", "\n".repeat(LINE_SHIFT)),
+        _ => format!("{}{}", "\n".repeat(LINE_SHIFT), cols(src)),
+    }
+}
+pub const LAYOUTS: [&str; 3] = ["col-shift", "line-shift", "both"];
+
 pub fn library_roundtrips(rng: &mut Rng8, dis: &Disabled, n: usize, n_fs: usize, shard: usize, rep: &mut Report) {
     for it in 0..n {
         let nm = rng.gen_range(1..4);
@@ -1666,6 +1682,14 @@ pub fn library_roundtrips(rng: &mut Rng8, dis: &Disabled, n: usize, n_fs: usize,
                 let size = rng.gen_range(2..12);
                 let (src, no_compile) = gen_module_src(rng, dis, stdlib, size);
                 if !no_compile && ModuleAst::parse(&src).is_ok() {
+                    // every fourth library has a module laid out beyond 16-bit lines / columns
+                    let src = if it % 4 == 3 && src.len() < 600 {
+                        let k = LAYOUTS[rng.gen_range(0..3)];
+                        rep.count("layout", &format!("library-module/{k}"));
+                        relayout(&src, k)
+                    } else {
+                        src
+                    };
                     mods.insert(path.to_string(), src);
                     break;
                 }
@@ -1813,6 +1837,22 @@ pub fn run(cfg: &Cfg) -> Report {
                 rep.sample(json!({"kind": "module", "src": truncate(&src, 400)}));
             }
         }
+        // layouts beyond 16-bit lines / columns (source locations written and reloaded)
+        if sh % 8 == 5 {
+            for i in 0..6 {
+                let k = LAYOUTS[i % 3];
+                let (src, _) = gen_program_src(&mut rng, &dis, false, 3 + i);
+                let (stack, advice) = rand_inputs(&mut rng);
+                let case = env_case(&relayout(&src, k), false, false, stack, advice);
+                if check_program_src(&case, false, &format!("layout-{k}/"), &mut rep).is_some() {
+                    rep.count("layout", &format!("program/{k}"));
+                }
+                let (msrc, _) = gen_module_src(&mut rng, &dis, false, 3 + i);
+                if check_module_src(&relayout(&msrc, k), false, false, &[], &format!("layout-{k}/"), &mut rep).is_some() {
+                    rep.count("layout", &format!("module/{k}"));
+                }
+            }
+        }
         // executable gadget programs (these run to completion, so outputs are compared for real)
         for _ in 0..per_case {
             let size = rng.gen_range(2..25);
@@ -1842,6 +1882,9 @@ pub fn run(cfg: &Cfg) -> Report {
         rep.floor(miss.is_empty(), &format!("every-{name}-subcode-encoded(missing:{:?})", miss));
     }
     rep.floor(rep.get_count("ast_config", "program|imports=0,locs=0") > 100 && rep.get_count("ast_config", "module|imports=1,locs=1") > 100, "all-configs-exercised");
+    for k in LAYOUTS {
+        rep.floor(rep.get_count("layout", &format!("program/{k}")) >= 3 && rep.get_count("layout", &format!("module/{k}")) >= 3, &format!("layout-{k}-programs-and-modules"));
+    }
     rep.floor(rep.get_count("compile", "ok") >= 200, "200-programs-compiled");
     rep.floor(rep.get_count("exec", "ok") >= 100, "100-programs-executed-to-completion");
     rep.floor(rep.get_count("compile", "module-ok") >= 50, "50-modules-compiled");
